@@ -12,6 +12,8 @@ def run(prop, tier):
     jobs = []
     for code in ("r", "0", "7", "-3"):
         jobs.append(dict(src=SRC, args=["join", "-p", p, "--", code]))
+    for code in ("r", "7"):          # p_uthread_create_full with explicit priority, stack size and name
+        jobs.append(dict(src=SRC, args=["join", "-p", p, "--", code, "f"]))
     scripts = [("j", "JU"), ("j", "RUJU"), ("j", "RJUU"), ("j", "UR"[:1]), ("d", "U"), ("d", "RUU"), ("j", "RUU")]
     if tier == "thorough":
         scripts += [("j", "RRUJUU"), ("d", "RRUUU"), ("j", "JRUU")]
